@@ -17,7 +17,8 @@
      - a missing operand makes the innermost parenthesised (or whole) expression false;
      - helpers: startsWith/endsWith/contains on the string form of the subject, datetime, now and
        seconds..years as millisecond timestamps, limit(n) true, json()/xml() selecting inside a
-       nested (possibly base64 encoded) document, an undefined helper is a missing operand.
+       nested (possibly base64 encoded) document; a helper that works on its subject is false when
+       the subject path has no match; an undefined helper is a missing operand.
    Where the rules fix no value (an object as operand, a regex compared with an array or used as a
    truth value, minus on a non-number, redact, helpers without argument) the denotation is None.
    This file never mentions the evaluator model (KflEval / KflOps). *)
@@ -198,6 +199,10 @@ Section Sem.
   Definition known_helpers : list bytes :=
     [n_startsWith; n_endsWith; n_contains; n_datetime; n_limit; n_json; n_xml; n_redact] ++ time_names.
 
+  (* the helpers that work on the value selected by the path: false when the path has no match *)
+  Definition works_on_subject (name : bytes) : bool :=
+    name_in name [n_startsWith; n_endsWith; n_contains; n_json; n_xml].
+
   (* value of helper `name` applied to the subject with the evaluated arguments *)
   Definition sem_helper (name : bytes) (subject : val) (args : list val) : option den :=
     if negb (name_in name known_helpers) then Some DMissing
@@ -338,7 +343,11 @@ Section Sem.
             | None, _ => Some (of_matches (jget path r))
             | Some h, ClSome (CallExpr _ ps _) =>
                 let? args := sem_paramsopt ps r in
-                sem_helper h (subject_value (jget path r)) args
+                match jget path r with
+                | [] => if works_on_subject h then Some (DVal (sv_bool false))      (* there is no value to work on *)
+                        else sem_helper h (sv_bool false) args
+                | l => sem_helper h (subject_value l) args
+                end
             | Some _, ClNone => Some (DVal (subject_value (jget path r)))
             end
         | None, None, None, None, Some src => Some (DVal (VRe src))
